@@ -11,7 +11,7 @@ func init() {
 	register(&propCheck{
 		id:    "C19",
 		level: "other",
-		explanation: "Static necessary conditions of 'paginators yield every item exactly once, in order; nothing after stop; constructor failures are reported': (E1) in package pagination no return that is reached only where a callee's error was found non-nil returns a nil error (the shadowed-result defect); (E2) AbstractPaginator.HasNext/GetNext test the paginator's context before anything else and the stream paginator only answers through them; (E3) HasNext answers true only where the current page iterator says so or through its own recursion after a successful page fetch; (E4) GetNext hands out the current iterator's item and only after HasNext advanced the cursor; (E5) whoever replaces the current page replaces the iterator from that same page; (E6) the context consulted by the gate is the one cancelled by Stop/Close; (E7) the stream paginator gives up only when told the stream is drying up and the grace period test has been made. Decided on SSA; nothing is executed. Not decided: the item sequence itself for arbitrary page partitions (behavioural), liveness of the stream loop.",
+		explanation: "Static necessary conditions of 'paginators yield every item exactly once, in order; nothing after stop; constructor failures are reported': (E1) in package pagination no return that is reached only where a callee's error was found non-nil returns a nil error (the shadowed-result defect); (E2) AbstractPaginator.HasNext/GetNext test the paginator's context before anything else and the stream paginator only answers through them; (E3) HasNext answers true only where the current page iterator says so or through its own recursion after a successful page fetch; (E8) after a page fetch returns, the context is consulted again before HasNext can answer true (a stop landing during the fetch yields nothing more); (E4) GetNext hands out the current iterator's item and only after HasNext advanced the cursor; (E5) whoever replaces the current page replaces the iterator from that same page; (E6) the context consulted by the gate is the one cancelled by Stop/Close; (E7) the stream paginator gives up only when told the stream is drying up and the grace period test has been made. Decided on SSA; nothing is executed. Not decided: the item sequence itself for arbitrary page partitions (behavioural), liveness of the stream loop.",
 		run:   runC19,
 		assumptions: []string{
 			"page and iterator implementations supplied by the caller honour IStaticPage / IIterator",
@@ -25,6 +25,7 @@ func runC19(c *Ctx) {
 	c.rule("E1", "a return reached only on the non-nil side of a test of a callee's error must not return a nil error (constructor failures are reported)", 10)
 	c.rule("E2", "HasNext/GetNext consult the paginator's context first: the DetermineContextError(a.ctx) test dominates every other call, and its failing side answers false / the error", 2)
 	c.rule("E3", "HasNext returns true only on the true side of the current iterator's HasNext, or as the result of its own recursion after fetchNextPage succeeded", 2)
+	c.rule("E8", "HasNext consults the paginator's context again between the return of a page fetch and any answer that can be true", 1)
 	c.rule("E4", "GetNext returns the item of the current page iterator's GetNext, obtained after HasNext() answered true", 2)
 	c.rule("E5", "every function that stores AbstractPaginator.currentPage also re-derives currentPageIterator from that page (or clears it) on every path", 1)
 	c.rule("E6", "the context stored in AbstractPaginator.ctx is the child context whose cancel function is registered in the store that Stop() cancels; Close() invokes Stop()'s result", 3)
@@ -247,6 +248,42 @@ func (c *Ctx) c19HasNext() {
 			c.violate("E3", key+":other", c.ipos(r), "HasNext's answer comes from "+l.String()+", neither the current iterator nor the recursion")
 		}
 	}
+	// E8: a page fetch can take arbitrarily long; Stop/Close/cancellation landing during it must be noticed before
+	// 'true' is answered. Between the return of fetchNextPage and any answer that can be true the paginator's
+	// context is consulted again (directly, or through the recursion whose first act it is).
+	allInstrs(f, func(in ssa.Instruction) {
+		fc, ok := in.(*ssa.Call)
+		if !ok || staticCallee(&fc.Call) != fetchNext {
+			return
+		}
+		hit := pathAvoiding(fc, func(i ssa.Instruction) bool {
+			call, ok := i.(*ssa.Call)
+			if !ok {
+				return false
+			}
+			if staticCallee(&call.Call) == f {
+				return true
+			}
+			return calleeFull(&call.Call) == detCtxErr && len(call.Call.Args) == 1 && isCtxFieldLoad(call.Call.Args[0])
+		}, func(i ssa.Instruction) bool {
+			r, ok := i.(*ssa.Return)
+			if !ok {
+				return false
+			}
+			for _, l := range sources(r.Results[0], deriveOpts{}) {
+				if bv, isC := constBool(l); !isC || bv {
+					return true
+				}
+			}
+			return false
+		})
+		key := fname(f) + "/recheck-after-fetch"
+		if hit != nil {
+			c.violate("E8", key, c.ipos(hit), "after fetchNextPage() at "+c.ipos(fc)+" returns, this answer can be true without the paginator's context having been consulted again: a Stop/Close/cancellation that lands while the page is being fetched is not noticed and one more item is yielded")
+		} else {
+			c.ok("E8", key, c.ipos(fc), "the context is consulted again (recursion or explicit test) before any answer that can be true")
+		}
+	})
 	// the page advance asks the current page first and installs what the fetcher returned
 	if fetchNext != nil {
 		var set, fetch *ssa.Call
